@@ -188,6 +188,140 @@ theorem CF_destroy_order :
         .s "__delete(config->include_dir)", .s "__zero(config)"]] := by
   decide
 
+/-! ### `config_setting_add`, `config_setting_remove_elem`: the guards in front of every structural change (C04, C05, C16) -/
+
+abbrev ADD := traces flow_config_setting_add
+
+def create : Ev := .s "setting=config_setting_create(parent,name,type)"
+def dropOld : Ev := .s "config_setting_remove_elem(parent,config_setting_index(existing))"
+def lookupExisting : Ev := .s "existing=config_setting_get_member(parent,name)"
+
+/-- a setting is created only behind ALL the guards, each evaluated and passed, in this order: type code in range,
+parent present, only scalars into arrays, the array's element type (`__config_list_checktype`, `CS_list_checktype`),
+a valid name where a name is used / a name at all in a group, no namesake unless overrides are allowed -/
+theorem CF_add_guards :
+    ∀ p ∈ ADD, p.contains create = true →
+      before (.no "(type<CONFIG_TYPE_NONE)||(type>CONFIG_TYPE_LIST)") (.no "!parent") p = true ∧
+      before (.no "!parent") (.no "(parent->type==CONFIG_TYPE_ARRAY)&&!__config_type_is_scalar(type)") p = true ∧
+      before (.no "(parent->type==CONFIG_TYPE_ARRAY)&&!__config_type_is_scalar(type)")
+             (.no "(parent->type==CONFIG_TYPE_ARRAY)&&!__config_list_checktype(parent,type)") p = true ∧
+      (p.contains (.yes "name") = true → p.contains (.no "!__config_validate_name(name)") = true) ∧
+      (p.contains (.no "name") = true → p.contains (.no "parent->type==CONFIG_TYPE_GROUP") = true) ∧
+      before lookupExisting (.no "(existing!=NULL)&&!config_get_option(parent->config,CONFIG_OPTION_ALLOW_OVERRIDES)") p = true ∧
+      before (.no "(existing!=NULL)&&!config_get_option(parent->config,CONFIG_OPTION_ALLOW_OVERRIDES)") create p = true ∧
+      count create p = 1 ∧ p.getLast? = some (.ret "(setting)") := by
+  decide
+
+/-- every refusal returns NULL having changed nothing: nothing created, nothing removed -/
+theorem CF_add_refusal :
+    ∀ p ∈ ADD, p.contains create = false → p.getLast? = some (.ret "(NULL)") ∧ count dropOld p = 0 := by
+  decide
+
+/-- the name passed for an array or list element is dropped BEFORE it is looked at (documented: it is ignored) -/
+theorem CF_add_name_ignored :
+    ∀ p ∈ ADD, p.contains (.yes "(parent->type==CONFIG_TYPE_ARRAY)||(parent->type==CONFIG_TYPE_LIST)") = true →
+      (p.contains (.yes "name") = true → before (.s "name=NULL") (.yes "name") p = true) ∧
+      (p.contains (.no "name") = true → before (.s "name=NULL") (.no "name") p = true) ∧
+      (p.contains create = true → before (.s "name=NULL") create p = true) := by
+  decide
+
+/-- fix 6140860: the overridden member goes only AFTER its replacement exists (the name may be its own), and only then -/
+theorem CF_add_override_order :
+    ∀ p ∈ ADD, (p.contains dropOld = true → before create dropOld p = true ∧ p.contains (.yes "(existing!=NULL)&&(setting!=NULL)") = true) ∧
+      (p.contains (.yes "(existing!=NULL)&&(setting!=NULL)") = true → count dropOld p = 1) := by
+  decide
+
+/-- `config_setting_remove_elem`: destroyed is exactly what was unlinked, behind the four guards; a refusal touches nothing -/
+theorem CF_remove_elem :
+    ∀ p ∈ traces flow_config_setting_remove_elem,
+      (p.getLast? = some (.ret "(CONFIG_TRUE)") →
+        before (.no "!parent") (.no "!config_setting_is_aggregate(parent)") p = true ∧
+        before (.no "!config_setting_is_aggregate(parent)") (.no "!list") p = true ∧ before (.no "!list") (.no "idx>=list->length") p = true ∧
+        before (.no "idx>=list->length") (.s "removed=__config_list_remove(list,idx)") p = true ∧
+        before (.s "removed=__config_list_remove(list,idx)") (.s "__config_setting_destroy(removed)") p = true) ∧
+      (p.getLast? ≠ some (.ret "(CONFIG_TRUE)") →
+        p.getLast? = some (.ret "(CONFIG_FALSE)") ∧ count (.s "removed=__config_list_remove(list,idx)") p = 0 ∧
+        count (.s "__config_setting_destroy(removed)") p = 0) := by
+  decide
+
+/-! ### creation and the child vector (C04, C05, C13) -/
+
+def storeChild : Ev := .s "list->elements[list->length]=setting"
+def growVector : Ev := .s "list->elements=(config_setting_t**)libconfig_realloc(list->elements,(list->length+CHUNK_SIZE)*sizeof(config_setting_t*))"
+
+/-- `__config_list_add`: the vector grows (through the checked allocator wrapper) BEFORE the child is stored, and the
+length counts the child only after it is stored - an allocation failure that does not return leaves the list as it was -/
+theorem CF_list_add :
+    ∀ p ∈ traces flow_config_list_add_impl, p.getLast? = some (.s "list->length++") ∧ count (.s "list->length++") p = 1 ∧
+      before storeChild (.s "list->length++") p = true ∧
+      (p.contains (.yes "(list->length%CHUNK_SIZE)==0") = true → before growVector storeChild p = true) ∧
+      (p.contains (.no "(list->length%CHUNK_SIZE)==0") = true → count growVector p = 0) := by
+  decide
+
+/-- `config_setting_create`: nothing is allocated under a parent that is not an aggregate; otherwise the new setting is
+completely filled in (parent, a COPY of the name, type, config, hook, line) before it is linked into the parent's list,
+which is the last thing that happens -/
+theorem CF_create :
+    ∀ p ∈ traces flow_config_setting_create,
+      (p.contains (.yes "!config_setting_is_aggregate(parent)") = true → p.getLast? = some (.ret "(NULL)") ∧ count (.s "setting=__new(config_setting_t)") p = 0) ∧
+      (p.contains (.no "!config_setting_is_aggregate(parent)") = true →
+        p.getLast? = some (.ret "(setting)") ∧ (p.dropLast).getLast? = some (.s "__config_list_add(list,setting)") ∧
+        before (.s "setting=__new(config_setting_t)") (.s "setting->parent=parent") p = true ∧
+        before (.s "setting->name=(name==NULL)?NULL:libconfig_strdup(name)") (.s "__config_list_add(list,setting)") p = true ∧
+        before (.s "setting->type=type") (.s "__config_list_add(list,setting)") p = true ∧
+        before (.s "setting->config=parent->config") (.s "__config_list_add(list,setting)") p = true ∧
+        before (.s "setting->hook=NULL") (.s "__config_list_add(list,setting)") p = true ∧
+        (p.contains (.yes "!list") = true → before (.s "list=parent->value.list=__new(config_list_t)") (.s "__config_list_add(list,setting)") p = true)) := by
+  decide
+
+/-- the shape the five element setters share, for the type constant `ty` and the scalar setter `setter` -/
+def elemSetterOK (f : Flow) (ty setter : String) : Bool :=
+  (traces f).all fun p =>
+    let onAggregate := Ev.no "(setting->type!=CONFIG_TYPE_ARRAY)&&(setting->type!=CONFIG_TYPE_LIST)"
+    let guard := Ev.no ("!__config_list_checktype(setting," ++ ty ++ ")")
+    let mk := Ev.s ("element=config_setting_create(setting,NULL," ++ ty ++ ")")
+    let get := Ev.s "element=config_setting_get_elem(setting,idx)"
+    let assigned := Ev.no ("!" ++ setter ++ "(element,value)")
+    !hasOther p &&
+    -- an element is created only for a negative index, on an array or list, behind the element-type guard for THIS type
+    (!(p.contains mk) || (p.contains (.yes "idx<0") && before onAggregate guard p && before guard mk p)) &&
+    -- an existing element is addressed only for a non-negative index, on an array or list
+    (!(p.contains get) || (p.contains (.no "idx<0") && before onAggregate get p)) &&
+    !(p.contains mk && p.contains get) &&
+    -- the element is handed back only when one was created (never NULL under an array or list: `CF_create`) or an existing
+    -- one was found (tested), and the setter of THIS type accepted the value
+    (!(p.getLast? == some (.ret "(element)")) || ((p.contains mk || (p.contains get && p.contains (.no "!element"))) && p.contains assigned)) &&
+    (p.getLast? == some (.ret "(element)") || p.getLast? == some (.ret "(NULL)"))
+
+theorem CF_set_int_elem : elemSetterOK flow_config_setting_set_int_elem "CONFIG_TYPE_INT" "config_setting_set_int" = true := by decide
+theorem CF_set_int64_elem : elemSetterOK flow_config_setting_set_int64_elem "CONFIG_TYPE_INT64" "config_setting_set_int64" = true := by decide
+theorem CF_set_float_elem : elemSetterOK flow_config_setting_set_float_elem "CONFIG_TYPE_FLOAT" "config_setting_set_float" = true := by decide
+theorem CF_set_bool_elem : elemSetterOK flow_config_setting_set_bool_elem "CONFIG_TYPE_BOOL" "config_setting_set_bool" = true := by decide
+theorem CF_set_string_elem : elemSetterOK flow_config_setting_set_string_elem "CONFIG_TYPE_STRING" "config_setting_set_string" = true := by decide
+
+/-! ### the locale switch itself and the writer's use of it (C15) -/
+
+/-- writing happens between exactly one override and one restore of what that override returned -/
+theorem CF_write_locale :
+    traces flow_config_write =
+      [[.s "config_saved_locale_t saved_locale=__config_locale_override()", .s "__config_write_setting(config,config->root,stream,0)",
+        .s "__config_locale_restore(saved_locale)"]] := by
+  decide
+
+/-- the override makes a NEW locale object and switches only the calling THREAD to it (`uselocale`, never `setlocale`),
+returning what the thread had; when no locale object can be made nothing is switched and 0 is returned -/
+theorem CF_locale_override :
+    traces flow_config_locale_override_impl =
+      [[.s "locale_t loc=newlocale(LC_NUMERIC,\"C\",NULL)", .ret "(loc?uselocale(loc):(locale_t)0)"]] := by
+  decide
+
+/-- the restore reinstates exactly the saved locale (which may be LC_GLOBAL_LOCALE) and frees the temporary one that
+`uselocale` hands back; after a failed override (saved = 0) it does nothing (fix 366676a) -/
+theorem CF_locale_restore :
+    traces flow_config_locale_restore_impl =
+      [[.yes "saved", .s "locale_t loc=uselocale(saved)", .s "freelocale(loc)"], [.no "saved"]] := by
+  decide
+
 /-! ### the include stack (lib/scanctx.c): C10 depth limit, C11 release of files and lists -/
 
 /-- the part of a path in front of the first occurrence of `e` (the whole path if there is none) -/
